@@ -369,6 +369,8 @@ Inductive gokey :=
 | KNil | KTru | KFix (z : Z) | KFlt (k : fkind) (m e : Z) | KChr (c : N) | KStr (s : list N) | KSym (s : list N)
 | KBig (z : Z) | KRat (n d : Z)     (* *Bignum, *Ratio: Go would compare the pointers; HashTable.Key resolves the key to the
                                       stored key of the same Go type that is Equal (repair C16-5), so the VALUE decides *)
+| KByt (u : bool) (v : Z)           (* *SignedByte (u = false) / *UnsignedByte (u = true): pointer-held numbers too, resolved by
+                                      HashTable.Key to the stored key of the same Go type that is Equal *)
 | KPtr (kind : N) (word : N)       (* *Vector 2: pointer identity *)
 | KUnhashable.                     (* slip.List: not comparable in Go; HashTable.Key signals a type-error (repair C16-4) *)
 Definition gokey_of (r : ref) : gokey :=
@@ -387,10 +389,21 @@ Definition gokey_eqb (a b : gokey) : bool :=
   | KStr x, KStr y | KSym x, KSym y => lN_eqb x y
   | KBig x, KBig y => x =? y                                   (* Bignum.Equal on a *Bignum: Cmp *)
   | KRat n d, KRat n' d' => n * d' =? n' * d                   (* Ratio.Equal on a *Ratio: big.Rat.Cmp *)
+  | KByt u v, KByt u' v' => Bool.eqb u u' && (v =? v')         (* same Go type; Equal compares the values (signed: repair C16-12;
+                                                                  before it a rune-wise trim identified e.g. -288 and -300) *)
   | KPtr k w, KPtr k' w' => (k =? k')%N && (w =? w')%N
   | _, _ => false
   end.
 Definition hashable (k : gokey) : bool := match k with KUnhashable => false | _ => true end.
+
+(* what is handed to the table as a key: a reference of the modelled universe, or a signed-byte / unsigned-byte
+   number.  Those are outside the universe of the predicates (their Equal is not even symmetric against floats);
+   as KEYS they matter because they are the other numbers held by a pointer.  Restriction: the value is inside
+   int64 (as (coerce n 'signed-byte) of a fixnum makes it): Equal on two of the same type is equality of the
+   values, and NormalizeNumber turns the object into the fixnum v, so that eql sees the integer v.  w is the data word (the pointer). *)
+Inductive tkey := TRef (r : ref) | TByt (u : bool) (v : Z) (w : N).
+Coercion TRef : ref >-> tkey.
+Definition tkey_gokey (k : tkey) : gokey := match k with TRef r => gokey_of r | TByt u v _ => KByt u v end.
 
 (* operations name keys by their index in a pool of references; values are integers (None = nil) *)
 Inductive hop :=
@@ -413,8 +426,8 @@ Inductive hobs :=
 (* table state: association list, most recent first, one entry per Go key *)
 Definition tstate := list (nat * Z).      (* pool index of the key object stored, value *)
 Section Table.
-  Variable pool : list ref.
-  Definition key_at (i : nat) : option gokey := option_map gokey_of (nth_error pool i).
+  Variable pool : list tkey.
+  Definition key_at (i : nat) : option gokey := option_map tkey_gokey (nth_error pool i).
   Definition same_key (i j : nat) : bool :=
     match key_at i, key_at j with Some a, Some b => gokey_eqb a b | _, _ => false end.
   Fixpoint t_find (st : tstate) (i : nat) : option Z :=
